@@ -201,6 +201,30 @@ func registerAir(P *Program) {
 		}
 		return c
 	}
+	// vss.Aggregator (embedded in vss.Verifier): the verifier object of dealer idx in this participant's generator
+	verOf := func(in *Interp, v Value) *kVerifier {
+		p, _ := v.(Ptr)
+		if p == nil {
+			in.rtPanic("nil *vss.Aggregator")
+		}
+		return (*p).(*Opaque).Data.(*kVerifier)
+	}
+	// MissingResponses (vss.go:707): indexes of the verifiers whose response to this dealer's deal has not been recorded
+	r("(*"+vss+".Aggregator).MissingResponses", func(in *Interp, caller *frame, fn *ssa.Function, args []Value) Value {
+		v := verOf(in, args[0])
+		var out []Value
+		for rsp := 0; rsp < v.g.n; rsp++ {
+			if _, ok := v.g.resps[v.idx][rsp]; !ok {
+				out = append(out, in.ts.BV(64, uint64(rsp)))
+			}
+		}
+		return SliceV{A: out}
+	})
+	// DealCertified (vss.go:683, before the timeout): enough approvals, no complaint, no absent response
+	r("(*"+vss+".Aggregator).DealCertified", func(in *Interp, caller *frame, fn *ssa.Function, args []Value) Value {
+		v := verOf(in, args[0])
+		return certified(in, v.g, v.idx)
+	})
 	r("(*"+ped+".DistKeyGenerator).Certified", func(in *Interp, caller *frame, fn *ssa.Function, args []Value) Value {
 		g := genOf(in, args[0])
 		c := in.ts.True()
@@ -291,6 +315,19 @@ func registerAir(P *Program) {
 			pts = append(pts, in.newPointEnc(c))
 		}
 		return Tuple{in.newPointEnc(in.ts.Str("<base>")), SliceV{A: pts}}
+	})
+	// PubPoly.Equal (share/poly.go): compares the first p.Threshold() commitments only; indexes q's commitments without a
+	// length check (a shorter q panics with an index out of range)
+	r("(*"+kb+"/share.PubPoly).Equal", func(in *Interp, caller *frame, fn *ssa.Function, args []Value) Value {
+		pp, qq := polyOf(in, args[0]), polyOf(in, args[1])
+		res := in.ts.True()
+		for i := range pp.commits {
+			if i >= len(qq.commits) {
+				in.rtPanic(fmt.Sprintf("index out of range [%d] with length %d", i, len(qq.commits)))
+			}
+			res = in.ts.And(res, in.ts.Eq(pp.commits[i], qq.commits[i]))
+		}
+		return res
 	})
 	r("(*"+kb+"/share.PubPoly).Commit", func(in *Interp, caller *frame, fn *ssa.Function, args []Value) Value {
 		poly := polyOf(in, args[0])
